@@ -100,7 +100,19 @@ impl Reader {
                 let path = format!("{}/{}/{}.rs", base, cat, section_file(&d.name()));
                 match std::fs::read_to_string(&path).ok().and_then(|t| first_raw_string(&t)) {
                     Some(s) => v.push((d.name(), s)),
-                    None => out.tool_error(format!("no section text found in {}", path)),
+                    None => {
+                        // the text is no longer a literal of that file (composed, included, shared): take what the code
+                        // renders for this pattern; two patterns with the same text are told apart by nothing, the first wins
+                        let d2 = *d;
+                        match guarded(move || match d2 {
+                            Det::Opt(o) => solstat::report::optimization_report::get_optimization_report_section(o),
+                            Det::Vul(v) => solstat::report::vulnerability_report::get_vulnerability_report_section(v).0,
+                            Det::Qa(q) => solstat::report::qa_report::get_qa_report_section(q),
+                        }) {
+                            Ok(s) if !s.is_empty() => v.push((d.name(), s)),
+                            _ => out.tool_error(format!("no section text found in {}", path)),
+                        }
+                    }
                 }
             }
             v.sort_by(|a, b| b.1.len().cmp(&a.1.len()));
@@ -477,6 +489,18 @@ pub fn replay(behaviours: &str, k: usize, random_maps: usize, trace: &mut Ndjson
         cases.push((cat.to_string(), f));
     }
 
+    // many findings: totals of four digits with a group below 100 (1 005, 2 048)
+    for cat in CATS {
+        let ps = patterns_of(cat);
+        cases.push((cat.to_string(), vec![(ps[0].clone(), vec![("Big.sol".to_string(), (1..=1005).collect())])]));
+        let three: Findings = ps.iter().cycle().take(2).enumerate()
+            .map(|(i, p)| (p.clone(), vec![(format!("Huge{}.sol", i), (1..=1024).collect::<Vec<i32>>())]))
+            .collect::<Vec<_>>();
+        // (a category with fewer than three patterns would repeat a key: keep distinct patterns only)
+        let mut seen = BTreeSet::new();
+        let three: Findings = three.into_iter().filter(|(p, _)| seen.insert(p.clone())).collect();
+        cases.push((cat.to_string(), three));
+    }
     for (ci, (cat, f)) in cases.iter().enumerate() {
         run_case(ci, cat, f, k, &reader, &mut rng, trace, out);
     }
